@@ -14,7 +14,7 @@ func init() { Registry["C10"] = c10 }
 func c10(r *Report) {
 	p := r.P
 	const ds = "vdr/didnuts/didstore"
-	r.Explanation = "Static decision of the determinism clause of order-independent did:nuts resolution: (1) DETERM over every function of the didstore package: each loop that ranges over a Go map is analysed; an append inside such a loop must feed a slice that is sorted (sort.Slice/Strings/...) before it escapes — in the same function after the loop or in every caller after the call — and the loop must contain no fold through a function, callback, first-match return, string concatenation or last-writer-wins store; (2) the event order is total: every constant return of event.before is behind a strict comparison and the remaining return is the transaction-reference comparison (unique tie-break); (3) the ordered event list is written only by insert; (4) deactivation is sticky: the Deactivated flag written when applying a document is the disjunction with the current version's flag."
+	r.Explanation = "Static decision of the determinism clause of order-independent did:nuts resolution: (1) DETERM over every function of the didstore package: each loop that ranges over a Go map is analysed; an append inside such a loop must feed a slice that is sorted (sort.Slice/Strings/...) before it escapes — in the same function after the loop or in every caller after the call — and the loop must contain no fold through a function, callback, first-match return, string concatenation or last-writer-wins store; (2) the event order is total: every constant return of event.before is behind a strict comparison and the remaining return is the transaction-reference comparison (unique tie-break); (3) the ordered event list is written only by insert; (4) deactivation is sticky: the Deactivated flag written when applying a document is the disjunction with the current version's flag; (5) writeEventList recomputes every element's positional MetaRef unconditionally (positions shift after an out-of-order insert); (6) the conflicted-documents counter changes by (conflicted now) - (was on the conflicted shelf): the prior flag is true only behind a non-empty read of that shelf."
 	r.NotDecided = []string{"order-independence of the event algebra over all n! arrival orders (an algebraic law of insert/applyFrom over runtime values)", "that entries with equal ids in two parallel documents have equal contents (merge picks the later one)"}
 
 	var fns []*ssa.Function
@@ -55,6 +55,183 @@ func c10(r *Report) {
 	}), Check: CallCheck(Fn(ds, "event", "before"), -1, IsTrue)})
 	// (4) sticky deactivation
 	c10Sticky(r)
+	// (5) positional metadata references, (6) conflict counter mirrors the conflicted shelf
+	c10MetaRefPositional(r, p.Func(ds, "", "writeEventList"))
+	c10ConflictDelta(r, p.Func(ds, "store", "applyFrom"))
+}
+
+// c10MetaRefPositional: after an out-of-order insert the positions of later events shift; the metadata record of an
+// event is addressed by its position, so writeEventList must recompute MetaRef for every element from its index.
+func c10MetaRefPositional(r *Report, fn *ssa.Function) {
+	rule := "ORDER: writeEventList assigns every element's MetaRef from its position in the list being written (unconditionally, on every iteration)"
+	key := "C10.metaref.positional"
+	if fn == nil {
+		r.Lost(key, rule, "writeEventList not found")
+		return
+	}
+	var st *ssa.Store
+	n := 0
+	for _, b := range fn.Blocks {
+		for _, in := range b.Instrs {
+			s, ok := in.(*ssa.Store)
+			if !ok {
+				continue
+			}
+			fa, ok := s.Addr.(*ssa.FieldAddr)
+			if ok && fieldIs(fa, "event", "MetaRef") {
+				st = s
+				n++
+			}
+		}
+	}
+	r.Sites += n
+	if n != 1 {
+		r.Lost(key, rule, "expected exactly one store to event.MetaRef in writeEventList")
+		return
+	}
+	loop := InnermostLoop(Loops(fn), st.Block())
+	if loop == nil {
+		r.Bad(key, rule, r.P.Pos(st.Pos()), "MetaRef is not assigned inside the loop over the events")
+		return
+	}
+	// the store's block dominates every latch (so no iteration skips it)
+	for b := range loop.Body {
+		for _, s := range b.Succs {
+			if s == loop.Header && !st.Block().Dominates(b) {
+				r.Bad(key, rule, r.P.Pos(st.Pos()), "an iteration can reach the next element without assigning MetaRef (conditional assignment)")
+				return
+			}
+		}
+	}
+	// the element addressed and the value both use the loop's range index
+	fa := st.Addr.(*ssa.FieldAddr)
+	ia, ok := fa.X.(*ssa.IndexAddr)
+	if !ok {
+		r.Bad(key, rule, r.P.Pos(st.Pos()), "MetaRef target is not an indexed element")
+		return
+	}
+	idx := ia.Index
+	if bin, ok := idx.(*ssa.BinOp); !ok || bin.Block() != loop.Header {
+		r.Bad(key, rule, r.P.Pos(st.Pos()), "the element is not addressed by the loop index")
+		return
+	}
+	call, ok := st.Val.(*ssa.Call)
+	usesIdx := false
+	if ok {
+		for _, el := range VariadicElems(call) {
+			v := StripConv(el)
+			if mi, ok := v.(*ssa.MakeInterface); ok {
+				v = mi.X
+			}
+			if v == idx {
+				usesIdx = true
+			}
+		}
+	}
+	if !usesIdx {
+		r.Bad(key, rule, r.P.Pos(st.Pos()), "the MetaRef value is not computed from the element's index")
+		return
+	}
+	r.OK(key, rule, r.P.Pos(st.Pos()), "unconditional store in the loop; value formatted from the loop index", true)
+}
+
+// c10ConflictDelta: the conflicted-documents counter mirrors the cardinality of the conflicted shelf: the flag that
+// decides whether it is incremented/decremented must say whether the document was on that shelf before.
+func c10ConflictDelta(r *Report, fn *ssa.Function) {
+	rule := "ARG: in applyFrom the conflicted counter changes by (is conflicted now) - (was on the conflicted shelf): the prior flag guarding +1/-1 is true exactly behind a non-empty read of the conflicted shelf"
+	key := "C10.conflict-count.delta-from-shelf"
+	if fn == nil {
+		r.Lost(key, rule, "applyFrom not found")
+		return
+	}
+	shelfName, okc := r.P.ConstValue("vdr/didnuts/didstore", "conflictedShelf")
+	if !okc {
+		r.Lost(key, rule, "constant conflictedShelf not found")
+		return
+	}
+	shelfName = strings.Trim(shelfName, "\"")
+	isShelfGet := VPat{Desc: "conflictedShelf.Get(key) bytes", M: func(v ssa.Value) bool {
+		ex, ok := v.(*ssa.Extract)
+		if !ok || ex.Index != 0 {
+			return false
+		}
+		c, ok := ex.Tuple.(*ssa.Call)
+		if !ok || !c.Common().IsInvoke() || c.Common().Method.Name() != "Get" {
+			return false
+		}
+		w, ok := c.Common().Value.(*ssa.Call)
+		if !ok || !w.Common().IsInvoke() || w.Common().Method.Name() != "GetShelfWriter" {
+			return false
+		}
+		s, ok := ConstString(w.Common().Args[0])
+		return ok && s == shelfName
+	}}
+	// the +1 / -1 on a uint32
+	var guards []ssa.Value
+	n := 0
+	for _, b := range fn.Blocks {
+		for _, in := range b.Instrs {
+			bin, ok := in.(*ssa.BinOp)
+			if !ok || (bin.Op != token.ADD && bin.Op != token.SUB) || bin.Type().String() != "uint32" {
+				continue
+			}
+			if c, ok := ConstInt(bin.Y); !ok || c != 1 {
+				continue
+			}
+			n++
+			// guard: the If of the single predecessor
+			if len(b.Preds) != 1 {
+				r.Bad(key, rule, r.P.Pos(bin.Pos()), "counter update is not directly guarded")
+				return
+			}
+			iff, ok := b.Preds[0].Instrs[len(b.Preds[0].Instrs)-1].(*ssa.If)
+			if !ok {
+				r.Bad(key, rule, r.P.Pos(bin.Pos()), "counter update is not directly guarded")
+				return
+			}
+			g := iff.Cond
+			if u, ok := g.(*ssa.UnOp); ok && u.Op == token.NOT {
+				g = u.X
+			}
+			guards = append(guards, g)
+		}
+	}
+	r.Sites += n
+	if n != 2 {
+		r.Lost(key, rule, "expected one increment and one decrement of the conflicted counter")
+		return
+	}
+	if guards[0] != guards[1] {
+		r.Bad(key, rule, r.P.Pos(fn.Pos()), "increment and decrement are guarded by different flags")
+		return
+	}
+	phi, ok := guards[0].(*ssa.Phi)
+	if !ok {
+		r.Bad(key, rule, r.P.Pos(fn.Pos()), "the prior-conflicted flag is "+AccessPath(guards[0], 0)+", not a flag set behind the conflicted-shelf lookup")
+		return
+	}
+	trues := 0
+	for i, e := range phi.Edges {
+		c, ok := ConstBool(e)
+		if !ok {
+			r.Bad(key, rule, r.P.Pos(phi.Pos()), "the prior-conflicted flag takes the value "+AccessPath(e, 0)+", which is not derived from the conflicted shelf")
+			return
+		}
+		if !c {
+			continue
+		}
+		trues++
+		pred := phi.Block().Preds[i]
+		if !FactHolds(pred, token.LSS, IntV(0), LenV(isShelfGet)) {
+			r.Bad(key, rule, r.P.Pos(phi.Pos()), "the flag is set to true on a path that is not behind len(conflictedShelf.Get(...)) > 0")
+			return
+		}
+	}
+	if trues == 0 {
+		r.Bad(key, rule, r.P.Pos(phi.Pos()), "the prior-conflicted flag is never true")
+		return
+	}
+	r.OK(key, rule, r.P.Pos(phi.Pos()), "flag true only behind a non-empty conflicted-shelf read; guards both +1 and -1", true)
 }
 
 func c10TieBreak(r *Report, before *ssa.Function) {
